@@ -5,7 +5,7 @@ LEVEL = "model_checking"
 
 
 def run(ctx):
-    hosts_common.run_family(ctx, ["C05"], ["free", "notify"])
+    hosts_common.run_family(ctx, ["C05"], ["free", "notify"], shared=True)
 
 
 def replay(ctx, path):
